@@ -1,0 +1,16 @@
+//go:build verif
+
+package v3
+
+// Contracts for the verification framework in /verif (comment-only file; compiled
+// only with -tags verif, where it contributes nothing but these comments).
+
+//@ // ---- C16: the minter parameter migration keeps every period's sequence id and end time, in order ----
+//@ func MigrateParams(ctx, storeKey, legacySubspace, cdc) (err)
+//@   modifies $kvHas, $kvVal
+//@   prop C16
+//@ loop MigrateParams#1
+//@   invariant 0 <= \i && \i <= len(oldParams.MinterConfig.Minters) && len(newParams.Minters) == \i && off(newParams.Minters) == 0
+//@   invariant newParams.MintDenom == oldParams.MintDenom && newParams.StartTime == oldParams.MinterConfig.StartTime
+//@   invariant forall j: int :: {newParams.Minters[j]} 0 <= j && j < \i ==> newParams.Minters[j] != nil
+//@     && newParams.Minters[j].SequenceId == oldParams.MinterConfig.Minters[j].SequenceId && newParams.Minters[j].EndTime == oldParams.MinterConfig.Minters[j].EndTime
